@@ -8,7 +8,7 @@
 (*    Call_X(args, result) == result \in Allowed_X(args)                   *)
 (* One TLC state per record; total monitor as in TraceHook.                *)
 (***************************************************************************)
-EXTENDS Oracles, Work, Json, IOUtils, TLC
+EXTENDS Oracles, Work, Grouping, Expansion, Tokens, TextA, Json, IOUtils, TLC
 
 Rec == ndJsonDeserialize(IOEnv.TRACE)
 
@@ -31,6 +31,16 @@ WorkViol(r) ==
 
 CallViol(r) ==
   CASE r.ev = "work" -> WorkViol(r)
+    [] r.ev = "group" -> GroupViol(r)
+    [] r.ev = "expand1" -> Expand1Viol(r)
+    [] r.ev = "expand_all" -> ExpandAllViol(r)
+    [] r.ev = "tokens" -> TokensViol(r)
+    [] r.ev = "textchanges" -> TextChangesViol(r)
+    [] r.ev = "textops" -> TextOpsViol(r)
+    [] r.ev = "identify" -> IdentifyViol(r)
+    [] r.ev = "remap" -> RemapViol(r)
+    [] r.ev = "helper" -> HelperViol(r)
+    [] r.ev = "determ" -> DetermViol(r)
     [] r.ev = "same" -> IF r.a = r.b THEN {} ELSE {r.clause}
 
 TInit == l = 1 /\ bad = {}
